@@ -30,7 +30,13 @@ var (
 	vFindCalls   int
 	vWindowsOK   bool
 	vWindowsSame bool
+	vWindowsFull bool
+	vLastSite    int // index (1-based) of the last line for which the line parser returned a syscall, 0 = none
 )
+
+// a concrete instruction line that is neither a function marker nor a syscall site: padding between the
+// symbolic lines of a long listing (layout parameter)
+const vFiller = "  main.go:12\t\t0x45f2a1\t\t4889442408\t\tMOVQ AX, 0x8(SP)"
 
 func vstubOpen(name string) (*os.File, error) {
 	if vOpenFails {
@@ -40,7 +46,10 @@ func vstubOpen(name string) (*os.File, error) {
 }
 func vstubFileClose(f *os.File) error            { return nil }
 func vstubNewReader(rd io.Reader) *bufio.Reader   { return &bufio.Reader{} }
-func vstubNewScanner(r io.Reader) *bufio.Scanner  { vPos, vLastMarker = 0, 0; return &bufio.Scanner{} }
+func vstubNewScanner(r io.Reader) *bufio.Scanner {
+	vPos, vLastMarker, vLastSite = 0, 0, 0
+	return &bufio.Scanner{}
+}
 func vstubScan(s *bufio.Scanner) bool {
 	if vPos < vYield {
 		vPos++
@@ -77,6 +86,15 @@ func vstubFindSyscallNum(instructions []string, sc *Syscall, matchers ...*regexp
 	if n > k-vLastMarker {
 		vWindowsOK = false
 	}
+	// ... and the search must see every line of the function since the previous site (a load further
+	// back than some fixed distance is still the load of this site)
+	last := vLastMarker
+	if vLastSite > last {
+		last = vLastSite
+	}
+	if n < k-last {
+		vWindowsFull = false
+	}
 	for i := 0; i < n; i++ {
 		j := k - n + i
 		if j < 0 || instructions[i] != vLines[j] {
@@ -106,13 +124,39 @@ func H_Parse() {
 		p = i386Parser
 	}
 	vLines = nil
-	for i := 0; i < L+M; i++ {
-		vLines = append(vLines, vLine("line"+strconv.Itoa(i+1)))
+	firstSym := -1
+	if lay := vParamStr("layout"); lay != "" {
+		// a long listing: "s" is a symbolic line, "f<n>" n concrete filler lines, e.g. "s,f600,s"; L is ignored
+		L, M = 0, 0
+		ns := 0
+		for _, it := range strings.Split(lay, ",") {
+			if it == "s" {
+				ns++
+				if firstSym < 0 {
+					firstSym = len(vLines)
+				}
+				vLines = append(vLines, vLine("line"+strconv.Itoa(ns)))
+				L++
+				continue
+			}
+			n, _ := strconv.Atoi(it[1:])
+			for j := 0; j < n; j++ {
+				vLines = append(vLines, vFiller)
+			}
+			L += n
+		}
+	} else {
+		for i := 0; i < L+M; i++ {
+			vLines = append(vLines, vLine("line"+strconv.Itoa(i+1)))
+		}
 	}
 	// optional case split on the first line (a partition: the four classes cover every line), so that
 	// the instances of a long listing can run in parallel
 	if cl := vParamInt("class1"); cl > 0 && L+M > 0 {
 		l1 := vLines[0]
+		if firstSym >= 0 {
+			l1 = vLines[firstSym]
+		}
 		isText := strings.HasPrefix(l1, "TEXT")
 		isRaw := false
 		for _, ins := range p.rawSyscallInstructions {
@@ -131,7 +175,17 @@ func H_Parse() {
 		}
 	}
 	vFindMemo = map[int]int{}
-	vWindowsOK, vWindowsSame = true, true
+	vWindowsOK, vWindowsSame, vWindowsFull = true, true, true
+	// observe where the line parser reports a site (the window restarts there)
+	orig := p.parse
+	p.parse = func(q *parser, line, caller string, instructions []string) (*Syscall, error) {
+		sc, err := orig(q, line, caller, instructions)
+		if sc != nil {
+			vLastSite = vPos
+		}
+		return sc, err
+	}
+	defer func() { p.parse = orig }()
 	vOpenFails = false
 	if y := vParamInt("yield"); y >= 0 {
 		vYield = y
@@ -167,6 +221,7 @@ func H_Parse() {
 	// (c) function scope
 	vAssert(vWindowsOK, "C16.scope")
 	vAssert(vWindowsSame, "C16.scope_lines")
+	vAssert(vWindowsFull, "C16.window_complete")
 	if vFindCalls > 0 {
 		vCover("cover.find_called")
 	}
